@@ -89,6 +89,28 @@ Proof.
   apply wrel_removelast. apply wrel_map.
 Qed.
 
+(* ================= any base (file bases included): bare references ================= *)
+(* empty, "?query", "#fragment": the classes of C01_EqRef / C01_EqEmpty hold for every kind of base *)
+Theorem bare_ref_covers sb input :
+  spec_scheme (spec_clean input) = None -> k_bare_ref (spec_clean input) = true ->
+  in_proved_class3 (Some sb) input = true.
+Proof.
+  intros Hs Hb. cbn [in_proved_class3].
+  destruct (starts_with_cp 35 (spec_clean input)) eqn:E35.
+  { assert (in_class_fragment_only input = true) as -> by exact E35. reflexivity. }
+  destruct (has_opaque_path sb) eqn:Hop.
+  { assert (in_class_opaque_base_fail sb input = true) as ->
+      by (unfold in_class_opaque_base_fail; rewrite Hop, Hs, E35; reflexivity).
+    rewrite !orb_true_r. reflexivity. }
+  destruct (spec_clean input) as [|c t] eqn:Ecl.
+  { assert (in_class_empty_ref sb input = true) as -> by (unfold in_class_empty_ref; rewrite Hop, Ecl; reflexivity).
+    rewrite !orb_true_r. reflexivity. }
+  cbn [k_bare_ref] in Hb. cbn [starts_with_cp] in E35. unfold k_qh in Hb. rewrite E35, orb_false_r in Hb.
+  assert (in_class_query_only sb input = true) as ->
+    by (unfold in_class_query_only; rewrite Hop, Ecl; cbn [negb andb starts_with_cp]; exact Hb).
+  rewrite !orb_true_r. reflexivity.
+Qed.
+
 (* ================= a non-special related base, scheme-less reference ================= *)
 Theorem nonspecial_base_covers b sb input :
   good_base dbg shs b sb -> is_special_scheme (su_scheme sb) = false ->
@@ -96,7 +118,7 @@ Theorem nonspecial_base_covers b sb input :
   in_proved_class3 (Some sb) input = true.
 Proof.
   intros [R Hok] Hnsp Hs Hk.
-  destruct (known_exact_base_noscheme b input Hs Hk) as (_ & Hd).
+  destruct (known_exact_base_noscheme b input Hs Hk) as [Hbare|(_ & Hd)]; [exact (bare_ref_covers sb input Hs Hbare)|].
   rewrite (rel_sch _ _ _ _ R), Hnsp in Hd. unfold k_relative in Hd. rewrite (related_cbb b sb R) in Hd.
   cbn [in_proved_class3].
   destruct (has_opaque_path sb) eqn:Hop.
@@ -146,7 +168,7 @@ Theorem special_base_covers b sb input :
 Proof.
   intros [R Hok] Hsb Hs Hk.
   destruct (sp_base_ok_facts sb Hsb) as (Hop & Hsp & Hnf & h & Eh).
-  destruct (known_exact_base_noscheme b input Hs Hk) as (_ & Hd).
+  destruct (known_exact_base_noscheme b input Hs Hk) as [Hbare|(_ & Hd)]; [exact (bare_ref_covers sb input Hs Hbare)|].
   rewrite (rel_sch _ _ _ _ R), Hsp in Hd. unfold k_relative in Hd. rewrite (related_cbb b sb R), Hop in Hd.
   cbn [in_proved_class3].
   destruct (spec_clean input) as [|c t] eqn:Ecl.
@@ -266,7 +288,8 @@ Proof.
     destruct (known_exact_base_scheme b input _ R Hs Hk) as (Hnf & _).
     unfold base_shape_ok in Hshape. rewrite Hsp, Hnf in Hshape. cbn [negb orb] in Hshape.
     exact (same_scheme_base_covers dbg shs b sb input R Hb Hshape Hs Hk).
-  - destruct (known_exact_base_noscheme b input Hs Hk) as (Hnf & _). rewrite (rel_sch _ _ _ _ Rl) in Hnf.
+  - destruct (known_exact_base_noscheme b input Hs Hk) as [Hbare|(Hnf & _)]; [exact (bare_ref_covers sb input Hs Hbare)|].
+    rewrite (rel_sch _ _ _ _ Rl) in Hnf.
     destruct (is_special_scheme (su_scheme sb)) eqn:Hsp; [|exact (nonspecial_base_covers dbg shs b sb input Hb Hsp Hs Hk)].
     unfold base_shape_ok in Hshape. rewrite Hsp, Hnf in Hshape. cbn [negb orb] in Hshape.
     exact (special_base_covers dbg shs b sb input Hb Hshape Hs Hk).
@@ -521,4 +544,14 @@ Theorem known_narrowed :
   /\ (known_c01_broad None nar_2 = 4 /\ known_c01 None nar_2 = 0)
   /\ (known_c01_broad None nar_3 = 2 /\ known_c01 None nar_3 = 0)
   /\ (known_c01_broad None nar_4 = 3 /\ known_c01 None nar_4 = 0).
+Proof. vm_compute. repeat split. Qed.
+
+(* class 1 does not contain the bare references against a file base *)
+Definition file_base_text : list N := [102;105;108;101;58;47;47;104;47;116;109;112;47;120].   (* file://h/tmp/x *)
+Theorem known_file_bare :
+  match parse_url true (host_parse id_idna) host_parse_opaque host_display None None file_base_text with
+  | POk b => known_c01 (Some b) [35; 102] = 0 /\ known_c01 (Some b) [63; 113] = 0 /\ known_c01 (Some b) [] = 0
+             /\ known_c01 (Some b) [32; 9] = 0 /\ known_c01 (Some b) [120] = 1 /\ known_c01 (Some b) [47; 120] = 1
+  | _ => False
+  end.
 Proof. vm_compute. repeat split. Qed.
